@@ -59,7 +59,7 @@ PLANS = {
         "thorough": [ex("peg3", "peg", 3, 3), ex("emit4", "emit", 4, 3), ex("ctx3", "ctx", 3, 3), rec("emitR", "emit", 20000, 10, 10), rec("pegR", "peg", 20000, 10, 10), rec("ctxR", "ctx", 10000, 10, 10)],
     },
     "C05": {
-        "quick": [ex("emit4", "emit", 4, 3), ex("rcvE", "rcvE", 1, 5, alphabet=["a", "b", "!"], modes=["E"]), ex("rcv3", "rcv", 3, 3, modes=["E"]),
+        "quick": [ex("emit4", "emit", 4, 3), ex("rcvE", "rcvE", 1, 4, alphabet=["a", "b", "!"], modes=["E"]), ex("rcv3", "rcv", 3, 3, modes=["E"]),
                   rec("emitR", "emit", 3000, 8, 8), rec("rcvR", "rcv", 1500, 8, 8)],
         "thorough": [ex("emit4", "emit", 4, 4), ex("rcvE", "rcvE", 1, 6, alphabet=["a", "b", "!"]), ex("rcv3", "rcv", 3, 4), ex("rcvT", "rcvT", 1, 5, alphabet=["a", "b", "!"]),
                      rec("emitR", "emit", 40000, 10, 10), rec("rcvR", "rcv", 30000, 10, 10)],
@@ -73,13 +73,13 @@ PLANS = {
                      rec("errR", "err", 30000, 10, 10, etys=ALL_ETYS), rec("lblR", "lbl", 20000, 10, 10, etys=ALL_ETYS)],
     },
     "C07": {
-        "quick": [ex("spn3", "spn", 3, 3, alphabet=["a", "b", "E"], kinds=["str"], invariants=INV_SPANS),
+        "quick": [ex("spn3", "spn", 3, 3, alphabet=["a", "b", "E"], kinds=["str"], modes=["E"], invariants=INV_SPANS),
                   ex("spng3", "spng", 3, 3, kinds=["mstream"], modes=["E"], invariants=INV_SPANS),
                   ex("spng4", "spng", 4, 3, kinds=["mapped"], modes=["E"], invariants=INV_SPANS),
                   ex("spn2", "spn", 2, 3, kinds=["slice", "array", "bytes"], modes=["E"], invariants=INV_SPANS),
-                  ex("gapT", "gapT", 1, 3, alphabet=["a", "b", "E"], kinds=["str", "mapped", "mstream", "slice"], modes=["E"], invariants=INV_SPANS),
+                  ex("gapT", "gapT", 1, 3, alphabet=["a", "b", "E"], kinds=["str", "mapped"], modes=["E"], invariants=INV_SPANS),
                   ex("spni3", "spni", 3, 3, kinds=["iter"], modes=["E"], invariants=INV_SPANS), ex("gapTi", "gapTi", 1, 3, kinds=["iter"], modes=["E"], invariants=INV_SPANS),
-                  ex("spnr3", "spnr", 3, 3, kinds=["mapped", "slice"], modes=["E"], invariants=INV_SPANS),
+                  ex("spnr3", "spnr", 3, 3, kinds=["mapped"], modes=["E"], invariants=INV_SPANS),
                   rec("spnR", "spn", 1500, 8, 8, kinds=["str", "slice"]), rec("spngR", "spng", 1500, 8, 8, kinds=["mapped", "mstream", "stream"]),
                   rec("spnrR", "spnr", 1000, 8, 8, kinds=["mapped", "slice", "wctx", "mapspan"])],
         "thorough": [ex("spn3", "spn", 3, 4, alphabet=["a", "b", "E"], kinds=["str"], invariants=INV_SPANS),
@@ -98,11 +98,11 @@ PLANS = {
     "C10": {
         "quick": [ex("peg2k", "peg", 2, 2, kinds=ALL_KINDS, modes=["E"]), ex("rep2k", "rep", 2, 3, alphabet=["a", ","], kinds=["stream", "mapped", "io"], modes=["E"]),
                   ex("rcv2k", "rcv", 2, 3, kinds=["bstream", "mstream", "wctx"], modes=["E"]),
-                  ex("seek4", "seek", 4, 4, kinds=["io", "bstream", "mstream"], modes=["E"]),
+                  ex("seek4", "seek", 4, 4, kinds=["io", "bstream"], modes=["E"]),
                   ex("spn2g", "spn", 2, 3, alphabet=["a", "G", "U"], kinds=["graph", "str"], modes=["E"]),
-                  ex("spng3k", "spng", 3, 3, kinds=["mapped", "mstream", "wctx", "mapspan"], modes=["E"]),
-                  ex("gapTk", "gapT", 1, 3, kinds=["mapped", "mstream", "stream", "wctx", "mapspan", "io", "slice"], modes=["E"]),
-                  ex("spni3", "spni", 3, 3, kinds=["iter", "mapped"], modes=["E"]), ex("gapTi", "gapTi", 1, 3, kinds=["iter"]),
+                  ex("spng3k", "spng", 3, 3, kinds=["mstream", "wctx", "mapspan"], modes=["E"]),
+                  ex("gapTk", "gapT", 1, 3, kinds=["mapped", "mstream", "wctx", "io"], modes=["E"]),
+                  ex("spni3", "spni", 3, 3, kinds=["iter"], modes=["E"]), ex("gapTi", "gapTi", 1, 3, kinds=["iter"], modes=["E"]),
                   rec("pegRk", "peg", 2500, 8, 8, kinds=ALL_KINDS), rec("spngRk", "spng", 1500, 8, 8, kinds=["mapped", "mstream", "stream", "wctx", "mapspan", "io"])],
         "thorough": [ex("peg2k", "peg", 2, 3, kinds=ALL_KINDS), ex("rep2k", "rep", 2, 4, alphabet=["a", ","], kinds=ALL_KINDS, modes=["E"]),
                      ex("rcv3k", "rcv", 3, 3, kinds=["bstream", "mstream", "wctx", "io"], modes=["E"]),
@@ -160,7 +160,7 @@ PLANS = {
         "thorough": [ex("ctx3", "ctx", 3, 4), rec("ctxR", "ctx", 30000, 10, 10)],
     },
     "C16": {
-        "quick": [ex("nst3", "nst", 3, 4, alphabet=["a", "b", "(", ")"], kinds=["tree", "treem"]),
+        "quick": [ex("nst3", "nst", 3, 4, alphabet=["a", "b", "(", ")"], kinds=["tree", "treem"], modes=["E"]), ex("nst2", "nst", 2, 4, alphabet=["a", "(", ")"], kinds=["tree"], modes=["C"]),
                   rec("nstR", "nst", 2000, 8, 10, kinds=["tree", "treem"])],
         "thorough": [ex("nst3", "nst", 3, 6, alphabet=["a", "b", "(", ")"], kinds=["tree", "treem"]),
                      ex("nst4", "nst", 4, 4, alphabet=["a", "(", ")"], kinds=["treem"], modes=["E"]),
